@@ -2,7 +2,9 @@
 struct-based float stepping are outside the verifier's subset).
 
 EXHAUSTIVE over the stated finite space: every grid with dimension 1..3, box lengths from BOXES, cells per side from
-SIDES per direction and neighbour layers 0..2.  For each grid, natively on the real classes:
+SIDES per direction and neighbour layers 0..2 (the 1-D family is the wide one: seven lengths x 17 cell counts, since
+the directions of a cuboid grid are independent and the float questions - n*(L/n) != L, L/n not representable - are
+per direction).  For each grid, natively on the real classes:
   partition : extents strictly ordered, consecutive cells abut (next min == float successor of this max), first min 0,
               last max the float below L; position_to_cell of every probe position (cell min / max, their float
               neighbours, midpoints, 0, the float below L - all combinations over the directions) returns a cell whose
@@ -17,8 +19,8 @@ import os
 import sys
 
 REPO = os.environ.get("VERIF_REPO", "/repo")
-BOXES = {1: [(1.0,), (2.7,)], 2: [(1.0, 1.0), (1.0, 1.5)], 3: [(1.0, 1.0, 1.0), (1.0, 1.5, 2.3)]}
-SIDES = {1: [1, 2, 3, 5, 7], 2: [1, 2, 3, 5], 3: [1, 2, 3]}
+BOXES = {1: [(1.0,), (2.7,), (1.7,), (0.3,), (3.3,), (10.1,), (0.07,)], 2: [(1.0, 1.0), (1.0, 1.5)], 3: [(1.0, 1.0, 1.0), (1.0, 1.5, 2.3)]}
+SIDES = {1: list(range(1, 17)) + [49], 2: [1, 2, 3, 5], 3: [1, 2, 3]}
 
 
 def setup(lengths):
